@@ -231,6 +231,8 @@ func (d *drv) violate(c *tcase, class, detail string) {
 	switch c.Kind {
 	case "error":
 		what = "the call returns an error"
+	case "errkill":
+		what = "the call returns an error, the operation is answered, then the process is killed"
 	case "none":
 		what = "no fault, clean shutdown and restart"
 	}
@@ -249,7 +251,9 @@ func tail(s string) string {
 func remoteFor(op string) map[string]string {
 	switch op {
 	case "APPEND":
-		return map[string]string{"rm4": "m4"}
+		return map[string]string{"rm5": "m4"}
+	case "MOVE_REC", "COPY_REC":
+		return map[string]string{"rm5": "m0"}
 	case "CONN_CREATE":
 		return map[string]string{"c5": "m5"}
 	case "CONN_UPDATE":
@@ -294,6 +298,8 @@ func (d *drv) exec(c *tcase) bool {
 		}
 	case "error":
 		cfg.Kind, cfg.FailAt = "error", c.K
+	case "errkill":
+		cfg.Kind, cfg.FailAt, cfg.KillAfterAck = "error", c.K, true
 	}
 	res, err := runWorker(cfg, 120*time.Second)
 	if err != nil {
@@ -312,7 +318,7 @@ func (d *drv) exec(c *tcase) bool {
 	modelOK := true // the step list matches: the allowed states apply
 	// the step list of the specification must be what the code really goes through
 	got := res.steps()
-	if c.Kind != "kill" {
+	if c.Kind != "kill" && c.Kind != "errkill" {
 		if dn := res.find("done"); dn != nil {
 			got = dn.Steps
 		}
@@ -324,14 +330,20 @@ func (d *drv) exec(c *tcase) bool {
 	}
 	ack := res.find("ack")
 	switch c.Kind {
-	case "kill":
+	case "kill", "errkill":
 		if !res.Killed {
 			if modelOK {
 				d.r.Machinery("%s: the worker was to be killed but exited with %d\n%s", c.sig(), res.ExitCode, tail(res.Stderr))
 			}
 			return false
 		}
-		if modelOK && (c.Ack == "OK") != (ack != nil && ack.Status == "OK") {
+		if c.Kind == "errkill" && ack != nil && strings.HasPrefix(ack.Status, "LOST") {
+			d.violate(c, "no-reply", "the client / connector got no completion for the operation: "+ack.Status)
+		} else if c.Kind == "errkill" && modelOK && (ack == nil || ack.Status != c.Ack) {
+			d.r.Machinery("spec out of date: %s: the specification says the operation is answered %s, worker saw %+v", c.sig(), c.Ack, ack)
+			ok = false
+		}
+		if c.Kind == "kill" && modelOK && (c.Ack == "OK") != (ack != nil && ack.Status == "OK") {
 			d.r.Machinery("spec out of date: %s: acknowledgement expected %q, worker saw %+v", c.sig(), c.Ack, ack)
 			ok = false
 		}
@@ -357,7 +369,7 @@ func (d *drv) exec(c *tcase) bool {
 			d.violate(c, "live-observation-failed", "a fresh session on the running server: "+lv.Obs.Err)
 		} else if modelOK {
 			want := c.canonLive()
-			have := canonObs(lv.Obs, d.uidvName, false, false)
+			have := canonObs(lv.Obs, d.uidvName, false, true)
 			if have.String() != want.String() {
 				d.violate(c, "live-state-not-allowed", fmt.Sprintf("after the operation was answered %s a fresh session on the running server sees\n   %s\nthe specification allows\n   %s", ack.Status, have, want))
 			}
@@ -421,7 +433,7 @@ func (c *tcase) canonLive() canon {
 	for id, fl := range c.Live.Flags {
 		rows[id] = sRow{Flags: fl}
 	}
-	return canonSpec(c.Live.Boxes, rows, c.Live.Dsubs, nil, c.Content, false, false)
+	return canonSpec(c.Live.Boxes, rows, c.Live.Dsubs, nil, c.Content, false, true)
 }
 
 // judge compares the state after restart with what TLC allows, most specific complaint first.
@@ -465,10 +477,16 @@ func (d *drv) judge(c *tcase, o *obsState, have canon, modelOK, ackOK bool) {
 			return
 		}
 	}
-	// before-or-after does not depend on the step list: what the user sees is the state before or after the operation
+	// before-or-after does not depend on the step list: all mailboxes and the subscription list are those before
+	// or those after the operation; only the rescue of a failing APPEND may add to the recovery mailbox on top
 	pre, post := c.canonState(&c.Pre), c.canonState(&c.Post)
-	hu, pu, qu := userView(have), userView(pre), userView(post)
-	if hu.String() != pu.String() && hu.String() != qu.String() {
+	hu, pu, qu := fullView(have), fullView(pre), fullView(post)
+	boa := hu.String() == pu.String() || hu.String() == qu.String()
+	if !boa && c.Op == "APPEND" && (c.Kind == "error" || c.Kind == "errkill") {
+		h2, p2, q2 := userView(have), userView(pre), userView(post)
+		boa = (h2.String() == p2.String() || h2.String() == q2.String()) && recoveryKeeps(pre, have)
+	}
+	if !boa {
 		d.violate(c, "neither-before-nor-after", fmt.Sprintf("a fresh session after restart sees\n   %s\nbefore the operation: %s\nafter the operation:  %s", hu, pu, qu))
 		return
 	}
@@ -482,7 +500,26 @@ func (d *drv) judge(c *tcase, o *obsState, have canon, modelOK, ackOK bool) {
 	d.violate(c, "state-not-allowed", fmt.Sprintf("a fresh session after restart sees\n   %s\nthe specification allows\n   %s\n(before the operation: %s)\n(after the operation:  %s)", have, strings.Join(allowed, "\n   "), pre, post))
 }
 
-// userView keeps what the user's own mailboxes and subscription list show (the recovery mailbox only ever gains).
+// fullView keeps what a client sees: all mailboxes and the subscription list.
+func fullView(c canon) canon { return canon{Boxes: c.Boxes, Lsub: c.Lsub} }
+
+// recoveryKeeps: every message the recovery mailbox held before is still in it.
+func recoveryKeeps(pre, have canon) bool {
+	for _, m := range pre.Boxes[recoveryBox].Msgs {
+		found := false
+		for _, h := range have.Boxes[recoveryBox].Msgs {
+			if h == m {
+				found = true
+			}
+		}
+		if !found {
+			return false
+		}
+	}
+	return true
+}
+
+// userView keeps what the user's own mailboxes and subscription list show.
 func userView(c canon) canon {
 	out := canon{Boxes: map[string]cBox{}, Lsub: []string{}}
 	for n, b := range c.Boxes {
@@ -563,6 +600,10 @@ func run(r *ev.Run, tier, replay string) {
 				r.Machinery("the plan TLC printed lacks a triple of %s at step %d", op, k)
 				return
 			}
+		}
+		if errThenKill := byKey[fmt.Sprintf("%s/1/errkill", op)] != nil; tier == "thorough" && !errThenKill {
+			r.Machinery("the plan TLC printed lacks the error-then-kill triples of %s", op)
+			return
 		}
 		if byKey[op+"/0/none"] == nil {
 			r.Machinery("the plan TLC printed lacks the clean restart of %s", op)
@@ -700,7 +741,7 @@ func run(r *ev.Run, tier, replay string) {
 		}
 	}
 	r.Set("exec_wall_s", time.Since(start).Seconds())
-	r.Set("executed_by_fault", map[string]int64{"kill": d.counts["kill"], "error": d.counts["error"], "clean_restart": d.counts["none"]})
+	r.Set("executed_by_fault", map[string]int64{"kill": d.counts["kill"], "error": d.counts["error"], "error_then_kill": d.counts["errkill"], "clean_restart": d.counts["none"]})
 	perOpN := map[string]int64{}
 	for k, v := range d.counts {
 		if strings.HasPrefix(k, "op:") {
@@ -708,7 +749,7 @@ func run(r *ev.Run, tier, replay string) {
 		}
 	}
 	r.Set("executed_by_operation", perOpN)
-	r.Set("traces_validated_against_impl", d.counts["kill"]+d.counts["error"]+d.counts["none"])
+	r.Set("traces_validated_against_impl", d.counts["kill"]+d.counts["error"]+d.counts["errkill"]+d.counts["none"])
 	r.Set("second_restart_checked", d.idem)
 	r.Set("exhaustive", exhaustive && !failed)
 	r.Set("rule", "one case = (operation, step index, kill | error) or the clean restart of an operation, enumerated exhaustively by TLC from the step lists of GluonCrash.tla "+
@@ -718,7 +759,7 @@ func run(r *ev.Run, tier, replay string) {
 		"non-trivial = a fault was really injected (everything but the clean restarts); distinct = distinct (operation, step, fault)")
 	r.Assumptions = []string{
 		"a kill is SIGKILL of the server process at a step boundary (between two calls), not a loss of power: the page cache survives, so SQLite's WAL without synchronous=FULL is not exercised",
-		"one fault per operation; faults during start-up recovery itself and double faults are not enumerated",
+		"one fault per operation (thorough: also a failing step followed by a kill right after the answer); faults during start-up recovery itself and other double faults are not enumerated",
 		"plain db.Client.Read calls are not step boundaries (they cannot change what is on disk); reads inside a write transaction are",
 		"connector-driven operations run while the only session watches a mailbox they do not touch (a session applies queued updates on its own goroutine, which would make step numbers scheduler-dependent)",
 		"the remote is fixture.VConn re-created with the messages it held; it never rejects a call",
